@@ -385,6 +385,14 @@ class Deployment:
                     cont[k % len(cont)] = new_items[k % len(new_items)]
                 else:
                     raise ValueError("data %d is a bare RVData: nothing to mutate in place" % op.get("data", 0))
+                rcont = w.ref_datasets[op.get("data", 0)]
+                if rcont is not cont:  # the references keep their own (canonical) copy: same edit there
+                    rnew = build_data(op["new_spec"], w.libraries, canonical=True)
+                    rnew_items = list(rnew.values()) if hasattr(rnew, "values") else (list(rnew) if isinstance(rnew, list) else [rnew])
+                    if hasattr(rcont, "keys"):
+                        rcont[list(rcont.keys())[k % len(rcont)]] = rnew_items[k % len(rnew_items)]
+                    else:
+                        rcont[k % len(rcont)] = rnew_items[k % len(rnew_items)]
                 from .world import snapshot_data
 
                 w.data_ref[op.get("data", 0)] = snapshot_data(cont)  # the USER changed it: new reference
